@@ -13,6 +13,13 @@ Theorem C28_fid_unique : forall t ops,
 Proof. exact fid_unique. Qed.
 Print Assumptions C28_fid_unique.
 
+(* in the form the "register race" cases are compared with: among the ids any
+   schedule hands out, the number of distinct ones is the number of registrations *)
+Theorem C28_register_race_distinct : forall t ops,
+  length (nodup N.eq_dec (issued t ops)) = length (issued t ops).
+Proof. intros t ops. rewrite nodup_fixed_point; [reflexivity|]. apply fid_unique. Qed.
+Print Assumptions C28_register_race_distinct.
+
 (* all_released_normal / _try / _trypipe: for every run mode and every list of
    processes (any flags, any exit numbers) each process that compile()
    registered gets exactly one disposal - executed, destroyed as terminated, or
@@ -93,8 +100,10 @@ Example C28_nonvacuous :
   let ops := [OReg 0; OReg 1; OReg 7; ODereg 1; OReg 8; ODereg 7; ODereg 0; ODereg 8] in
   fresh_regs [] ops = true /\ open_after [] ops = [] /\
   issued t ops = [6; 7; 8; 9]%N /\ live (fst (run_ops (t, []) ops)) = [2; 5]%N /\
-  spec_ok {| k_progs := []; k_trees := []; k_exact := false; k_issued := 4; k_leaked := 1; k_dup := false |} = false /\
-  spec_ok {| k_progs := []; k_trees := []; k_exact := false; k_issued := 4; k_leaked := 0; k_dup := true |} = false.
+  spec_ok {| k_progs := []; k_trees := []; k_exact := false; k_issued := 4; k_leaked := 1; k_dup := false; k_regs := 4; k_distinct := 4; k_fresh := true |} = false /\
+  spec_ok {| k_progs := []; k_trees := []; k_exact := false; k_issued := 4; k_leaked := 0; k_dup := true; k_regs := 4; k_distinct := 4; k_fresh := true |} = false /\
+  (* two racing registrations that got the same id *)
+  spec_ok {| k_progs := []; k_trees := []; k_exact := false; k_issued := 3; k_leaked := 0; k_dup := false; k_regs := 4; k_distinct := 3; k_fresh := true |} = false.
 Proof. repeat split; reflexivity. Qed.
 
 (* a concrete nested tree: a function fork (registered) whose second process forks
